@@ -130,17 +130,22 @@ func c02Handshake(ti, tr *Transport, short []int, psk bool) (*c02Pair, error) {
 // ---------- the reader's code paths ----------
 
 const (
-	c02D  = "D"  // no queue; len(buf) >= encrypted length: read and decrypt in the caller's buffer
-	c02Bp = "Bp" // no queue; len(buf) < plaintext length: pooled buffer, part copied, remainder queued
-	c02Bf = "Bf" // no queue; plaintext <= len(buf) < encrypted length: pooled buffer, all copied, empty remainder stays queued
-	c02Qp = "Qp" // queue drained partly
-	c02Ql = "Ql" // queue drained to its end (>0 bytes) and released
-	c02Qz = "Qz" // empty remainder released, Read returns (0, nil)
+	c02D  = iota // no queue; len(buf) >= encrypted length: read and decrypt in the caller's buffer
+	c02Bp        // no queue; len(buf) < plaintext length: pooled buffer, part copied, remainder queued
+	c02Bf        // no queue; plaintext <= len(buf) < encrypted length: pooled buffer, all copied, EMPTY remainder stays queued
+	c02Qp        // queue drained partly
+	c02Ql        // queue drained to its end (>0 bytes) and released
+	c02Qz        // empty remainder released, Read returns (0, nil)
+	c02E         // Read returned an error
+	c02None
 )
 
-var c02PathPairs = []string{
-	"D>D", "D>Bp", "D>Bf", "Bp>Qp", "Bp>Ql", "Bf>Qz", "Qp>Qp", "Qp>Ql",
-	"Ql>D", "Ql>Bp", "Ql>Bf", "Qz>D", "Qz>Bp", "Qz>Bf",
+var c02PathName = [...]string{"D", "Bp", "Bf", "Qp", "Ql", "Qz", "E", "?"}
+
+// every transition of the reader's path automaton
+var c02PathPairs = [][2]int{
+	{c02D, c02D}, {c02D, c02Bp}, {c02D, c02Bf}, {c02Bp, c02Qp}, {c02Bp, c02Ql}, {c02Bf, c02Qz}, {c02Qp, c02Qp}, {c02Qp, c02Ql},
+	{c02Ql, c02D}, {c02Ql, c02Bp}, {c02Ql, c02Bf}, {c02Qz, c02D}, {c02Qz, c02Bp}, {c02Qz, c02Bf},
 }
 
 // c02Frames: plaintext sizes of the frames Write produces for the given write sizes.
@@ -162,21 +167,26 @@ func c02Frames(writes []int) []int {
 // c02Tracker follows one reading session: white-box queue state + index of the next frame on the wire.
 type c02Tracker struct {
 	s      *secureSession
-	frames []int
-	fi     int // frames consumed from the wire so far (as observed)
+	frames []int // plaintext sizes of all frames the session's writer will send, in order
+	fi     int   // frames consumed from the wire so far (as observed)
 	// per Read
 	preQ     int // queued remainder before the Read (-1: no queue)
-	predPath string
+	predPath int
 	predN    int
-	// trace
-	last      string
-	rle       []string
-	rleN      int
-	pairs     map[string]int
-	paths     map[string]int
-	mismatch  []string
-	unordered bool
+	// trace of the current transfer
+	last     int
+	rle      []string
+	rleN     int
+	pairs    [c02None + 1][c02None + 1]int
+	mismatch []string
+	// chatter: whenever a frame has just been buffered with a remainder left in the queue (path Bp), the
+	// READING session writes a frame of the same size in the opposite direction (nobody reads it): traffic
+	// in both directions shares the buffer pool, so a pooled buffer that is still queued must not be reused
+	chatter    bool
+	chatterErr error
 }
+
+var c02Junk = make([]byte, MaxPlaintextLength)
 
 func (k *c02Tracker) queued() int {
 	if k.s.qbuf == nil {
@@ -197,6 +207,8 @@ func (k *c02Tracker) pending() int {
 	return 1
 }
 
+// before computes, from (queued remainder, size of the pending frame, len(buf)) alone, the path this Read
+// is going to take and the count it will return.
 func (k *c02Tracker) before(r int) {
 	k.preQ = k.queued()
 	switch {
@@ -207,7 +219,7 @@ func (k *c02Tracker) before(r int) {
 	case k.preQ == 0:
 		k.predPath, k.predN = c02Qz, 0
 	case k.fi >= len(k.frames):
-		k.predPath, k.predN = "?", 0 // nothing on the wire: EOF / error expected
+		k.predPath, k.predN = c02None, 0 // nothing on the wire: EOF / error expected
 	default:
 		p := k.frames[k.fi]
 		switch {
@@ -221,13 +233,14 @@ func (k *c02Tracker) before(r int) {
 	}
 }
 
+// after classifies the path actually taken from the queue state before and after the Read.
 func (k *c02Tracker) after(r, n int, err error) {
 	if err != nil {
-		k.note("E")
+		k.note(c02E)
 		return
 	}
 	postQ := k.queued()
-	var path string
+	var path int
 	if k.preQ >= 0 {
 		switch {
 		case postQ >= 0:
@@ -248,54 +261,58 @@ func (k *c02Tracker) after(r, n int, err error) {
 			path = c02Bp
 		}
 	}
-	if k.predPath != "?" && (path != k.predPath || n != k.predN) && len(k.mismatch) < 4 {
-		k.mismatch = append(k.mismatch, fmt.Sprintf("Read(len %d) with queue=%d frame#%d: computed %s n=%d, observed %s n=%d", r, k.preQ, k.fi, k.predPath, k.predN, path, n))
+	if k.predPath != c02None && (path != k.predPath || n != k.predN) && len(k.mismatch) < 4 {
+		k.mismatch = append(k.mismatch, fmt.Sprintf("Read(len %d) with queue=%d frame#%d: computed %s n=%d, observed %s n=%d", r, k.preQ, k.fi, c02PathName[k.predPath], k.predN, c02PathName[path], n))
 	}
 	k.note(path)
+	if k.chatter && path == c02Bp && k.fi-1 < len(k.frames) {
+		if _, err := k.s.Write(c02Junk[:k.frames[k.fi-1]]); err != nil && k.chatterErr == nil {
+			k.chatterErr = err
+		}
+	}
 }
 
-func (k *c02Tracker) note(path string) {
-	if k.pairs == nil {
-		k.pairs, k.paths = map[string]int{}, map[string]int{}
-	}
-	k.paths[path]++
-	if k.last != "" {
-		k.pairs[k.last+">"+path]++
-	}
+func (k *c02Tracker) note(path int) {
+	k.pairs[k.last][path]++
 	if path == k.last {
 		k.rleN++
-	} else {
-		k.flushRLE()
-		k.last, k.rleN = path, 1
+		return
 	}
+	k.flushRLE()
+	k.last, k.rleN = path, 1
 }
 
 func (k *c02Tracker) flushRLE() {
-	if k.last == "" {
+	if k.last == c02None || k.rleN == 0 {
 		return
 	}
 	if k.rleN > 1 {
-		k.rle = append(k.rle, fmt.Sprintf("%s*%d", k.last, k.rleN))
+		k.rle = append(k.rle, fmt.Sprintf("%s*%d", c02PathName[k.last], k.rleN))
 	} else {
-		k.rle = append(k.rle, k.last)
+		k.rle = append(k.rle, c02PathName[k.last])
 	}
 }
 
+// trace returns the run-length encoded path sequence since the previous call. The path of the last Read is
+// kept as predecessor, so pairs across two transfers of one session are counted too.
 func (k *c02Tracker) trace() string {
 	k.flushRLE()
-	k.last = ""
-	if len(k.rle) > 24 {
-		h := sha256.Sum256([]byte(strings.Join(k.rle, " ")))
-		return strings.Join(k.rle[:12], " ") + fmt.Sprintf(" ...(%d runs, %x)", len(k.rle), h[:6])
+	k.rleN = 0
+	rle := k.rle
+	k.rle = nil
+	if len(rle) > 24 {
+		h := sha256.Sum256([]byte(strings.Join(rle, " ")))
+		return strings.Join(rle[:12], " ") + fmt.Sprintf(" ...(%d runs, %x)", len(rle), h[:6])
 	}
-	return strings.Join(k.rle, " ")
+	return strings.Join(rle, " ")
 }
 
 // ---------- links ----------
 
 // c02Setup returns the setup function of one direction of a fresh, handshaken session (optionally over the
-// PSK layer) with the white-box tracker wired to the reader.
-func c02Setup(ti, tr *Transport, stack, dir string, short, writes []int) func() (*memconn.Link, error) {
+// PSK layer) with the white-box tracker wired to the reader; frames = plaintext sizes of all frames the
+// writer is going to send during the session.
+func c02Setup(ti, tr *Transport, stack, dir string, short, frames []int, chatter bool) func() (*memconn.Link, error) {
 	return func() (*memconn.Link, error) {
 		p, err := c02Handshake(ti, tr, short, stack == "psk>noise")
 		if err != nil {
@@ -305,7 +322,7 @@ func c02Setup(ti, tr *Transport, stack, dir string, short, writes []int) func() 
 		if dir == "r2i" {
 			w, rd, rraw = p.res, p.ini, p.ca
 		}
-		trk := &c02Tracker{s: rd, frames: c02Frames(writes)}
+		trk := &c02Tracker{s: rd, frames: frames, last: c02None, chatter: chatter}
 		return &memconn.Link{W: w, R: rd, RRaw: rraw, CloseW: w.Close, Close: func() { p.ca.Close(); p.cb.Close() },
 			Pending: trk.pending, Before: trk.before, After: trk.after, Extra: trk}, nil
 	}
@@ -322,6 +339,8 @@ type c02Case struct {
 	Policy string `json:"read_policy"`
 	Short  []int  `json:"short_reads_underneath"`
 	Each   bool   `json:"read_after_each_write"`
+	Duplex bool   `json:"reader_writes_back_while_a_remainder_is_queued,omitempty"`
+	Nth    int    `json:"nth_transfer_of_session"`
 	Trace  string `json:"reader_paths,omitempty"`
 }
 
@@ -352,14 +371,19 @@ func c02Policies(L int, thorough bool) []memconn.Policy {
 	return memconn.Policies(fixed, []int{-1, 0, 1, 15, 16, 17})
 }
 
-func c02Payload(cache map[string][]byte, L int, dir string) []byte {
-	k := fmt.Sprint(L, dir)
+// c02Payload: a different payload for every transfer of a session (and per direction), so that bytes of an
+// earlier transfer showing up in a later one are seen.
+func c02Payload(cache map[string][]byte, L int, dir string, nth int) []byte {
+	k := fmt.Sprint(L, dir, nth)
 	if p, ok := cache[k]; ok {
 		return p
 	}
-	seed := uint64(0xC02)
+	seed := uint64(0xC02)*64 + uint64(nth)
 	if dir == "r2i" {
-		seed = 0xC02B
+		seed += 0xB0000
+	}
+	if len(cache) > 256 {
+		clear(cache)
 	}
 	cache[k] = memconn.Pattern(seed, L)
 	return cache[k]
@@ -387,6 +411,7 @@ func TestVerifC02Noise(t *testing.T) {
 	r.Bounds["short_read_patterns(cyclic, 0=unlimited)"] = shorts
 	r.Bounds["directions"] = "initiator->responder, responder->initiator"
 	r.Bounds["read_after"] = "each write | last write"
+	r.Bounds["duplex"] = "additionally (noise, unlimited reads, read after last write): the reading session writes a same-size frame back whenever a remainder has just been queued"
 	r.Bounds["stacks"] = "noise: full grid; psk>noise: L in {0,17,65520,131039}, short reads {unlimited,1,7}"
 	if !thorough {
 		r.Bounds["quick_reduction"] = "second direction and read-after-each-write only with short reads {unlimited,1}"
@@ -398,7 +423,7 @@ func TestVerifC02Noise(t *testing.T) {
 	r.Bounds["read_policies(pending = queued remainder, else plaintext size of the next frame)"] = pn
 
 	payloads := map[string][]byte{}
-	pairs := map[string]int{}
+	var pairs [c02None + 1][c02None + 1]int
 	mismatches := 0
 	for _, stack := range []string{"noise", "psk>noise"} {
 		for _, L := range lengths {
@@ -424,31 +449,53 @@ func TestVerifC02Noise(t *testing.T) {
 							if !thorough && (dir == "r2i" || each) && !(short[0] == 0 || short[0] == 1) {
 								continue
 							}
-							for _, pol := range c02Policies(L, thorough) {
+							for _, chatter := range []bool{false, true} {
+								if chatter && !(stack == "noise" && !each && len(short) == 1 && short[0] == 0 && (thorough || dir == "i2r")) {
+									continue
+								}
 								if b.Over() {
 									goto done
 								}
-								c := c02Case{Stack: stack, Dir: dir, L: L, Split: sp.Name, Writes: c02ShortWrites(sp.Sizes), Policy: pol.Name, Short: short, Each: each}
-								res := memconn.RunFidelity(t, c02Setup(ti, tr, stack, dir, short, sp.Sizes), c02Payload(payloads, L, dir), sp.Sizes, each, pol, &b.Buf)
-								var trk *c02Tracker
+								// one fresh session per (stack, L, split, short reads, direction, read-after mode);
+								// the read policies follow each other on it, each with its own payload
+								pols := c02Policies(L, thorough)
+								items := make([]memconn.Item, len(pols))
+								cases := make([]c02Case, len(pols))
+								var all []int
+								for i, pol := range pols {
+									items[i] = memconn.Item{Payload: c02Payload(payloads, L, dir, i), Writes: sp.Sizes, Each: each, Pol: pol}
+									cases[i] = c02Case{Stack: stack, Dir: dir, L: L, Split: sp.Name, Writes: c02ShortWrites(sp.Sizes), Policy: pol.Name, Short: short, Each: each, Duplex: chatter, Nth: i}
+									all = append(all, frames...)
+								}
+								res := memconn.RunFidelity(t, c02Setup(ti, tr, stack, dir, short, all, chatter), items, &b.Buf, func(i int, _ *memconn.Transfer, l *memconn.Link) {
+									cases[i].Trace = l.Extra.(*c02Tracker).trace()
+								})
+								if res.Link != nil && res.Done < len(cases) {
+									cases[res.Done].Trace = res.Link.Extra.(*c02Tracker).trace()
+								}
+								b.Fidelity(stack, res, len(items), func(i int) any { return cases[i] })
+								for i := 0; i < res.Done; i++ {
+									r.Outcome(stack + " transfer delivered intact")
+									b.Distinct(cases[i], stack, dir, frames, short, cases[i].Trace)
+								}
 								if res.Link != nil {
-									trk = res.Link.Extra.(*c02Tracker)
-									c.Trace = trk.trace()
-								}
-								if !b.Fidelity(stack, res, c) {
-									continue
-								}
-								for k, v := range trk.pairs {
-									pairs[k] += v
-								}
-								for _, m := range trk.mismatch {
-									mismatches++
-									r.Outcome("path-model-mismatch")
-									if mismatches <= 5 {
-										r.Note("path model mismatch at %+v: %s", c, m)
+									trk := res.Link.Extra.(*c02Tracker)
+									for x := range trk.pairs {
+										for y := range trk.pairs[x] {
+											pairs[x][y] += trk.pairs[x][y]
+										}
+									}
+									for _, m := range trk.mismatch {
+										mismatches++
+										r.Outcome("path-model-mismatch")
+										if mismatches <= 5 {
+											r.Note("path model mismatch in session %+v: %s", cases[0], m)
+										}
+									}
+									if trk.chatterErr != nil {
+										r.Outcome("reverse-direction write failed (not judged): " + memconn.ErrClass(trk.chatterErr))
 									}
 								}
-								b.Distinct(c, stack, dir, frames, short, c.Trace)
 							}
 						}
 					}
@@ -459,20 +506,22 @@ func TestVerifC02Noise(t *testing.T) {
 done:
 	// every transition of the reader's path automaton should have been taken (coverage, not a verdict)
 	var missing, extra []string
-	known := map[string]bool{}
+	known := map[[2]int]bool{}
 	for _, pp := range c02PathPairs {
 		known[pp] = true
-		r.Outcome(fmt.Sprintf("path-pair %s taken=%v", pp, pairs[pp] > 0))
-		if pairs[pp] == 0 {
-			missing = append(missing, pp)
+		name := c02PathName[pp[0]] + ">" + c02PathName[pp[1]]
+		r.Outcome(fmt.Sprintf("path-pair %s taken=%v", name, pairs[pp[0]][pp[1]] > 0))
+		if pairs[pp[0]][pp[1]] == 0 {
+			missing = append(missing, name)
 		}
 	}
-	for k := range pairs {
-		if !known[k] && !strings.Contains(k, "E") {
-			extra = append(extra, k)
+	for x := 0; x < c02E; x++ {
+		for y := 0; y < c02E; y++ {
+			if pairs[x][y] > 0 && !known[[2]int{x, y}] {
+				extra = append(extra, c02PathName[x]+">"+c02PathName[y])
+			}
 		}
 	}
-	sort.Strings(extra)
 	if len(extra) > 0 {
 		r.Note("reader path pairs outside the computed automaton: %v", extra)
 	}
